@@ -8,9 +8,9 @@ CONSTANTS
   MaxExt = 1
   MaxDepth = 1
   AsImpl = {}
-  MaxClasses = 2
-  StdArgs <- SA_thorough
-  KwArgs <- KA_thorough
+  MaxClasses = 3
+  StdArgs <- SA_deep
+  KwArgs <- KA_deep
   ExtraKinds = {}
 INVARIANT Monotone
 INVARIANT AllBijections
